@@ -542,6 +542,16 @@ def judge_c10(mb, run, result):
                 pr = h.first('probe_register_after_fc')
                 if pr is None or pr['result'] != 'throw':
                     out.append(Violation('final-construct:client-registered-afterwards', str(pr)))
+                pa = h.first('probe_register_again')
+                if pa is not None and pa['result'] != 'throw':
+                    out.append(Violation('final-construct:client-registered-afterwards', f'second attempt with the refused identifier: {pa}'))
+                ia = h.first('client_ids_after_probe')
+                if ia is not None:
+                    from .tapes import quote_id
+                    got = sorted([] if ia['ids'] == '-' else ia['ids'].split(','))
+                    want = sorted(quote_id(n) for n in (run.get('client_names') or []))
+                    if got != want and not (mon_ok and sorted(want + ['monitor']) == got):
+                        out.append(Violation('final-construct:client-registered-afterwards', f'registry after the refused registration lists {got}, registered before FinalConstruct: {want}'))
                 if run['clients'] > 0:
                     pf = h.first('probe_fetch_existing')
                     if pf is None or pf['result'] != 'ok' or pf.get('same') != '1':
